@@ -15,7 +15,8 @@ RULE = ('A case is (file, optional cut = keep only the first k result times, lis
         'truncated copies with 1..N-1 times. After every action (index, time, step, every table: row names, column names, '
         'array) is compared with a fresh listing positioned once at that index. Non-trivial = the sequence contains a '
         'backward move or a history call; distinct = distinct case JSON.'
-        ' The third history letter is a selection none of whose entries exists (returns None, must change nothing).')
+        ' The third history letter is a selection none of whose entries exists (returns None, must change nothing).'
+        ' Rounds 7-9: time = inf / step = 10**18 and far / infinite values either side; a second listing object of the same file opened and moved between the judged actions.')
 ASSUMPTIONS = ['index accepts -n..n-1 (negative = from the end, as last() uses)',
                'a truncated copy is the file cut at the start of the line of a result banner; the reader opens such copies',
                'time=t / step=s may select either of two equally near result sets']
